@@ -68,3 +68,29 @@ func init() {
 		Stubs: []string{"os.Stat/MkdirAll/Rename/RemoveAll/WriteFile, filepath.Walk (recorded with symbolic arguments)", "exec.Command(bash -c ...) (recorded; command model writes the declared file when the script is concrete)", "encoding/json (snapshot)", "time.Now (counter)"},
 	})
 }
+
+func init() {
+	var q, th []H
+	for k := 0; k <= 10; k++ {
+		q = append(q, H{Pkg: "scipipe", Fn: "VxH15cmd", Params: p("L", 4, "k", k), MustReach: []string{"task-built"}, MustAssert: []string{"C15.command-expansion", "C15.no-placeholder-left"}, Native: true})
+		th = append(th, H{Pkg: "scipipe", Fn: "VxH15cmd", Params: p("L", 6, "k", k), MustReach: []string{"task-built"}, MustAssert: []string{"C15.command-expansion", "C15.no-placeholder-left"}, Native: true})
+	}
+	q = append(q, H{Pkg: "scipipe", Fn: "VxH15missing", MustReach: []string{"tried"}, MustAssert: []string{"C15.missing-value-stops", "C15.missing-value-no-task"}})
+	q = append(q, H{Pkg: "scipipe", Fn: "VxH15out", Params: p("L", 3, "V", 2), MustReach: []string{"outpath", "default"}, MustAssert: []string{"C15.outpath-expansion", "C15.default-name"}})
+	th = append(th, H{Pkg: "scipipe", Fn: "VxH15missing", MustReach: []string{"tried"}, MustAssert: []string{"C15.missing-value-stops", "C15.missing-value-no-task"}})
+	th = append(th, H{Pkg: "scipipe", Fn: "VxH15out", Params: p("L", 4, "V", 3), MustReach: []string{"outpath", "default"}, MustAssert: []string{"C15.outpath-expansion", "C15.default-name"}})
+	regCheck(&Check{
+		ID: "C15", Quick: q, Thorough: th,
+		Bounds: map[string]string{
+			"patterns":      "11 command patterns and 5 output-path patterns + the default name (placeholder kinds i/o/p/t, modifier chains of basename, dirname, %suffix, s/a/b/, repeated placeholders) - enumerated, not symbolic",
+			"input path":    "every valid file path of <= 4 bytes quick / <= 6 thorough over [0-9A-Za-z/._-] (case split on length and on the positions of / and . where modifiers apply)",
+			"param and tag": "every non-empty value of <= 3 bytes (quick out-path harness: <= 2) of printable ASCII without { } | and whitespace",
+			"map order":     "iteration order of every `range` over a map is a symbolic choice (out-path / default-name harness)",
+		},
+		Outside: []string{"patterns outside the enumerated set (regex matching of symbolic patterns is outside the encodable fragment)", "values containing { } | or whitespace", "port discovery from the pattern is exercised only on the concrete patterns"},
+		Assumptions: append([]string{
+			"the reference follows docs/writing_workflows.md; where it is silent (suffix equal to the whole value; first vs every occurrence for s/a/b/) both outcomes are accepted",
+		}, commonAssumptions...),
+		Stubs: []string{"os.Stat in NewFileIP (absent)", "os.Exit (ends the run, reported as kind exit)"},
+	})
+}
